@@ -243,3 +243,19 @@ func roots() []any {
 			"map":  map[string]any{"k": map[string]any{"k": i(1)}, "list": []any{i(1)}}, "t": i(1614834367)},
 	}
 }
+
+// mutatorSeq is the alphabet of an extra enumeration under asm (explicit and
+// implicit): sequences of 3 (thorough: also 4) state-changing steps, the only
+// plans in which one step can observe what an earlier one stored.
+var mutatorSeq = []string{
+	`["set","$.asm",{"a":1}]`,
+	`["set","$.asm",[1,2]]`,
+	`["set","$.asm","$.src.map"]`,
+	`["set","$.asm.b","$.asm.a"]`,
+	`["set","$.asm.a",2]`,
+	`["set","$.asm[0]","$.asm[1]"]`,
+	`["del","$.asm.a"]`,
+	`["set","$.src.a","$.asm.b"]`,
+	`["setall","$.asm.*",0]`,
+	`["set","$.asm.k",["sum","$.src.a",1]]`,
+}
